@@ -27,6 +27,15 @@ Bools == {TRUE, FALSE}
 \* all alignments with the given row names over residue set R and length L
 Aligns(names, R, L, al, pol) == {NewArgs("align", al, pol, [i \in 1..Len(names) |-> Row(names[i], ss[i])]) : ss \in [1..Len(names) -> SeqsLen(R, L)]}
 
+RECURSIVE Pow(_, _)
+Pow(b, e) == IF e <= 0 THEN 1 ELSE b * Pow(b, e - 1)
+Pow4(e) == Pow(4, e)
+\* the residue domain of the exhaustive codon check: A C G T U, the 11 ambiguity codes, X and O (letters that are
+\* nucleotide-compatible but not IUPAC nucleotides), all in both cases, and - ? . *
+CodonDomain == LET up == <<65, 67, 71, 84, 85, 82, 89, 83, 87, 75, 77, 66, 68, 72, 86, 78, 88, 79>>
+                   lo == IF Scope = "full" THEN [i \in 1..Len(up) |-> up[i] + 32] ELSE <<97, 99, 103, 116, 117, 110, 121>>
+               IN up \o lo \o <<45, 63, 46, 42>>
+
 L(o) == o.len
 Ints(o) == (-1)..(L(o) + 1)
 AlignIds(h) == {i \in 1..Len(h) : IsAlign(h[i])}
@@ -53,6 +62,84 @@ Seeds ==
                             NewArgs("align", NUCLEOTIDS, 0, <<>>)},
                     y \in {NewArgs("align", NUCLEOTIDS, 0, <<Row(nB, <<71>>), Row(nZ, <<84>>)>>),
                            NewArgs("align", NUCLEOTIDS, 0, <<>>)}}
+    [] Profile = "C05" ->
+         \* (a) every codon over the full residue domain, packed: row k holds all codons starting with symbol k
+         \* (b) every sequence of each length 0..6 over {A,T,G,-} as a sequence set (frames x lengths incl. the error cases)
+         \* (c) reference-guided translation: every gap placement in a reference of length 6
+         \* (d) codon alignment: every gap placement of a short protein alignment over its own nucleotides
+         LET D == CodonDomain
+             nD == Len(D)
+             codonRow(k) == [p \in 1..(3 * nD * nD) |->
+                               LET c == (p - 1) \div 3  j == (p - 1) % 3
+                               IN IF j = 0 THEN D[k] ELSE IF j = 1 THEN D[(c \div nD) + 1] ELSE D[(c % nD) + 1]]
+             allCodons(kind) == NewArgs(kind, NUCLEOTIDS, 0, [k \in 1..nD |-> Row(DecPad(k, 2), codonRow(k))])
+             S4 == <<65, 84, 71, 45>>
+             seqNo(k, len) == [i \in 1..len |-> S4[((k \div Pow4(len - i)) % 4) + 1]]
+             allSeqs(len) == NewArgs("bag", NUCLEOTIDS, 0, [k \in 1..Pow4(len) |-> Row(DecPad(k, 4), seqNo(k - 1, len))])
+             small == NewArgs("bag", NUCLEOTIDS, 0, <<Row(nA, <<65, 84, 71>>)>>)
+             refRows == SeqsLen({65, 45}, 6)
+             ntbag == NewArgs("bag", NUCLEOTIDS, 0, <<Row(nA, <<65, 84, 71, 65, 65, 65, 84, 84>>), Row(nB, <<97, 117, 103, 67, 67, 78>>)>>)
+             placements(aa, ln) == {s \in SeqsLen(Range(aa) \cup {45}, ln) : SelectSeq(s, LAMBDA c : c # 45) = aa}
+         IN (IF Scope = "full" THEN {<<allCodons("bag"), small>>, <<allCodons("align"), small>>} ELSE {<<allCodons("bag"), small>>})
+            \cup {<<allSeqs(len), small>> : len \in 0..(IF Scope = "full" THEN 6 ELSE 5)}
+            \cup {<<NewArgs("align", NUCLEOTIDS, 0, <<Row(nA, r), Row(nB, o)>>), small>> :
+                     r \in refRows, o \in {<<65, 84, 71, 65, 84, 71>>, <<65, 45, 71, 67, 84, 45>>}}
+            \cup {<<ntbag, NewArgs("align", AMINOACIDS, 0, <<Row(nA, x), Row(nB, y)>>)>> :
+                     x \in placements(<<77, 75>>, 3), y \in placements(<<77, 80>>, 3)}
+            \cup {<<ntbag, NewArgs("align", AMINOACIDS, 0, <<Row(nA, <<77, 75, 88>>), Row(nB, <<77, 45, 45>>)>>)>>,
+                   <<ntbag, NewArgs("align", AMINOACIDS, 0, <<Row(nA, <<77, 45, 45>>), Row(nZ, <<77, 80, 45>>)>>)>>}
+    [] Profile = "C12" ->
+         \* all columns of a given height over {A,a,N,n,X,-} packed side by side (both orders), and all rows of a given length
+         LET R6 == <<65, 97, 78, 110, 88, 45>>
+             hs == IF Scope = "full" THEN {2, 3} ELSE {2}
+             cols(h, al, rev) == NewArgs("align", al, 0, [r \in 1..h |->
+                                   Row(<<114, ZERO + r>>, [c \in 1..Pow(6, h) |->
+                                         LET cc == IF rev THEN Pow(6, h) - c ELSE c - 1 IN R6[((cc \div Pow(6, h - r)) % 6) + 1]])])
+             rows(len, al) == NewArgs("align", al, 0, [k \in 1..Pow(6, len) |->
+                                   Row(DecPad(k, 3), [i \in 1..len |-> R6[(((k - 1) \div Pow(6, len - i)) % 6) + 1]])])
+             other == NewArgs("align", NUCLEOTIDS, 0, <<Row(nA, <<45, 45, 65>>), Row(nB, <<45, 78, 65>>)>>)
+         IN {<<cols(h, al, rev), other>> : h \in hs, al \in {NUCLEOTIDS, AMINOACIDS}, rev \in Bools}
+            \cup {<<rows(len, al), other>> : len \in hs, al \in {NUCLEOTIDS, AMINOACIDS}}
+            \cup {<<NewArgs("align", NUCLEOTIDS, 0, <<Row(nA, s1), Row(nB, s2)>>), other>> :
+                     s1 \in {<<45, 45, 65, 45, 45>>, <<45, 65, 45, 65, 45>>}, s2 \in {<<45, 65, 65, 65, 45>>, <<45, 45, 45, 45, 45>>, <<78, 45, 65, 45, 110>>}}
+    [] Profile = "C13" ->
+         LET R == IF Scope = "full" THEN {65, 78, 45, 110} ELSE {65, 78, 45}
+         IN {<<x, NewArgs("align", NUCLEOTIDS, 0, <<>>)>> :
+               x \in Aligns(<<nA, nB, nC>>, R, 2, NUCLEOTIDS, 0)
+                      \cup Aligns(<<nA, nB>>, {65, 67}, 4, NUCLEOTIDS, 0)
+                      \cup Aligns(<<nA, nB, nC, nZ>>, {88, 45}, 2, AMINOACIDS, 0)
+                      \cup Aligns(<<nA>>, {65, 67}, 3, NUCLEOTIDS, 0)
+                      \cup {NewArgs("bag", NUCLEOTIDS, 0, <<Row(nA, <<65>>), Row(nB, <<65, 67>>), Row(nC, <<65>>), Row(nZ, <<65, 67>>)>>),
+                             NewArgs("bag", NUCLEOTIDS, 0, <<Row(nA, <<65, 78>>), Row(nB, <<65, 45>>), Row(nC, <<65>>), Row(nZ, <<>>)>>)}}
+    [] Profile = "C14" ->
+         LET R6 == <<65, 67, 97, 78, 45, 46>>
+             hs == IF Scope = "full" THEN {2, 3, 4} ELSE {2, 3}
+             cols(h, al) == NewArgs("align", al, 0, [r \in 1..h |->
+                                   Row(<<114, ZERO + r>>, [c \in 1..Pow(6, h) |-> R6[(((c - 1) \div Pow(6, h - r)) % 6) + 1]])])
+             prof == NewArgs("align", NUCLEOTIDS, 0, <<Row(nA, <<65, 45, 67>>), Row(nB, <<65, 45, 45>>)>>)
+         IN {<<cols(h, al), prof>> : h \in hs, al \in {NUCLEOTIDS, AMINOACIDS}}
+            \cup {<<NewArgs("align", NUCLEOTIDS, 0, <<Row(nA, r), Row(nB, o), Row(nC, o2)>>), prof>> :
+                     r \in SeqsLen({65, 45}, 5), o \in {<<67, 65, 67, 65, 67>>, <<67, 45, 65, 45, 82>>}, o2 \in {<<45, 45, 45, 45, 45>>, <<78, 65, 71, 71, 65>>}}
+            \cup {<<NewArgs("align", NUCLEOTIDS, 0, <<Row(nA, <<65, 45, 67>>), Row(nB, <<71, 45, 67>>), Row(nC, <<71, 65, 45>>)>>), prof>>,
+                   <<NewArgs("align", NUCLEOTIDS, 0, <<Row(nA, <<>>)>>), prof>>}
+    [] Profile = "C15" ->
+         LET R4 == <<65, 67, 45, 78>>
+             cols(h, al) == NewArgs("align", al, 0, [r \in 1..h |->
+                                   Row(<<114, ZERO + r>>, [c \in 1..Pow(4, h) |-> R4[(((c - 1) \div Pow(4, h - r)) % 4) + 1]])])
+             other == NewArgs("align", NUCLEOTIDS, 0, <<>>)
+         IN {<<cols(3, al), other>> : al \in {NUCLEOTIDS, AMINOACIDS}}
+            \cup {<<x, other>> : x \in Aligns(<<<<114, 49>>, <<114, 50>>>>, {65, 45}, 2, NUCLEOTIDS, 0)}
+            \cup {<<NewArgs("align", NUCLEOTIDS, 0, <<Row(<<114, 49>>, <<65, 46, 45>>), Row(<<114, 50>>, <<46, 46, 67>>)>>), other>>}
+            \cup (IF Scope = "full" THEN {<<x, other>> : x \in Aligns(<<<<114, 49>>, <<114, 50>>, <<114, 51>>>>, {65, 67, 45}, 1, NUCLEOTIDS, 0)} ELSE {})
+    [] Profile = "C19" ->
+         {<<NewArgs("align", NUCLEOTIDS, 0, <<Row(nA, <<65, 67, 71, 84>>), Row(nB, <<65, 45, 71, 78>>), Row(nC, <<84, 84, 97, 45>>)>>),
+            NewArgs("bag", NUCLEOTIDS, 0, <<Row(nA, <<65, 84, 71, 45, 67>>), Row(nB, <<71>>)>>)>>,
+          <<NewArgs("align", AMINOACIDS, 0, <<Row(nA, <<77, 75, 45>>), Row(nB, <<77, 81, 88>>)>>),
+            NewArgs("align", NUCLEOTIDS, 0, <<Row(nC, <<65, 84, 71>>)>>)>>}
+    [] Profile = "C10" ->
+         {<<NewArgs("align", NUCLEOTIDS, 0, <<Row(nA, <<65, 67, 71, 84>>), Row(nB, <<67, 45, 84, 65>>), Row(nC, <<71, 84, 46, 67>>)>>),
+            NewArgs("align", AMINOACIDS, 0, <<Row(nA, <<65, 42>>), Row(nB, <<81, 45>>)>>)>>,
+          <<NewArgs("align", NUCLEOTIDS, 0, <<Row(nA, <<65>>)>>), NewArgs("align", NUCLEOTIDS, 0, <<Row(nA, <<65, 67>>), Row(nB, <<71, 84>>)>>)>>}
     [] OTHER -> {}
 
 \* ---- operation instances enabled in a heap ------------------------------------------------------
@@ -109,8 +196,109 @@ InstC04(h) ==
     \cup UNION {{Inst("Split", r, [plen |-> pl, ranges |-> rs]) : rs \in RangeLists(pl)} : pl \in {L(h[r]), L(h[r]) + 1} \cap 0..9}
     \cup {Inst("Transpose", r, NoArg), Inst("DiffWithFirst", r, NoArg), Inst("ReplaceMatchChars", r, NoArg)}
     : r \in 1..Len(h)}
+Cutoffs == {<<0, 1>>, <<1, 4>>, <<1, 3>>, <<1, 2>>, <<2, 3>>, <<3, 4>>, <<1, 1>>}
+CutoffsOut == {<<-1, 2>>, <<3, 2>>}
+InstC05(h) ==
+  (IF h[1].k = "bag" \/ Len(h[1].rows) > 2
+   THEN IF Len(h[1].rows) = Len(CodonDomain)
+        THEN {Inst("Translate", 1, [frame |-> 0, code |-> c]) : c \in {0, 1, 2}}
+             \cup (IF Scope = "full" THEN {Inst("Translate", 1, [frame |-> -1, code |-> 0]), Inst("Translate", 1, [frame |-> 1, code |-> 1]),
+                                           Inst("Translate", 1, [frame |-> 2, code |-> 2])} ELSE {})
+        ELSE {Inst("Translate", 1, [frame |-> f, code |-> c]) : f \in {-1, 0, 1, 2}, c \in {0, 3}}
+   ELSE {})
+  \cup (IF IsAlign(h[1]) /\ Len(h[1].rows) = 2
+        THEN {Inst("TranslateByReference", 1, [ref |-> n, frame |-> f, code |-> c]) : n \in {nA, nB, nZ, <<>>}, f \in {0, 1, 2}, c \in {0, 1}}
+        ELSE {})
+  \cup (IF Len(h) >= 2 /\ IsAlign(h[2]) /\ h[2].al = AMINOACIDS THEN {Inst("CodonAlign", 2, [nt |-> 1, code |-> 0])} ELSE {})
+InstC12(h) ==
+  LET r == 1  o == h[1]  big == Width(o) > 5 IN
+  {Inst("RemoveCharacterSites", r, [chars |-> cs, p |-> c[1], q |-> c[2], ends |-> e, icase |-> ic, igaps |-> ig, ins |-> ins, rev |-> rv]) :
+      cs \in (IF Scope = "full" THEN {<<65>>, <<110>>, <<45>>, <<65, 45>>} ELSE {<<110>>, <<65, 45>>}),
+      c \in Cutoffs \cup (IF Scope = "full" THEN CutoffsOut ELSE {}), e \in Bools, ic \in Bools, ig \in Bools, ins \in Bools, rv \in Bools}
+  \cup {Inst("RemoveGapSites", r, [p |-> c[1], q |-> c[2], ends |-> e]) : c \in Cutoffs \cup CutoffsOut, e \in Bools}
+  \cup {Inst("RemoveMajorityCharacterSites", r, [p |-> c[1], q |-> c[2], ends |-> e, igaps |-> ig, ins |-> ins]) :
+           c \in Cutoffs, e \in Bools, ig \in Bools, ins \in Bools}
+  \cup {Inst("RemoveCharacterSeqs", r, [c |-> ch, p |-> c[1], q |-> c[2], icase |-> ic, igaps |-> ig, ins |-> ins]) :
+           ch \in {65, 110, 45}, c \in Cutoffs \cup CutoffsOut, ic \in Bools, ig \in Bools, ins \in Bools}
+  \cup {Inst("RemoveGapSeqs", r, [p |-> c[1], q |-> c[2], ins |-> ins]) : c \in Cutoffs \cup CutoffsOut, ins \in Bools}
+InstC13(h) ==
+  {Inst("Deduplicate", 1, [nasgap |-> b]) : b \in Bools}
+  \cup (IF IsAlign(h[1]) THEN {Inst("Compress", 1, NoArg)} ELSE {})
+  \cup (IF Len(hist) = 3 /\ hist[3].op = "Deduplicate" THEN {} ELSE {})
+InstC14(h) ==
+  LET r == 1  o == h[1]  W == Width(o)
+      sites == {-1, 0, 1, W - 1, W} IN
+  {Inst("MaxCharStats", r, [igaps |-> a, ins |-> b]) : a \in Bools, b \in Bools}
+  \cup {Inst("Consensus", r, [igaps |-> a, ins |-> b]) : a \in Bools, b \in Bools}
+  \cup {Inst("CharStats", r, NoArg), Inst("UniqueCharacters", r, NoArg), Inst("NbVariableSites", r, NoArg), Inst("InformativeSites", r, NoArg),
+        Inst("AvgAllelesPerSite", r, NoArg), Inst("CountProfile", r, NoArg), Inst("CountDifferences", r, NoArg)}
+  \cup {Inst("CharStatsSite", r, [site |-> s]) : s \in sites}
+  \cup {Inst("CharStatsSeq", r, [idx |-> s]) : s \in {-1, 0, Len(o.rows) - 1, Len(o.rows)}}
+  \cup (IF Len(o.rows) > 0 THEN {Inst("Entropy", r, [site |-> s, rmgaps |-> b]) : s \in sites \cup (IF W <= 36 THEN 0..(W - 1) ELSE {}), b \in Bools} ELSE {})
+  \cup (IF Len(o.rows) > 0 THEN {Inst("Pssm", r, [log |-> lg, pc |-> pc, norm |-> nm]) : lg \in Bools, pc \in {"0", "1", "0.5"}, nm \in {0, 1}} \ {Inst("Pssm", r, [log |-> TRUE, pc |-> "0", norm |-> nm]) : nm \in {0, 1}} ELSE {})
+  \cup (IF Len(o.rows) > 0 THEN {Inst("NumGapsUnique", r, [prof |-> p]) : p \in {0, 1} \cup (IF Width(h[2]) = W THEN {2} ELSE {})} ELSE {})
+  \cup (IF Len(o.rows) > 0 THEN {Inst("NumMutationsUnique", r, [prof |-> p]) : p \in {0, 1} \cup (IF Width(h[2]) = W THEN {2} ELSE {})} ELSE {})
+  \cup {Inst("NumMutRef", r, [i |-> i, refi |-> j]) : i \in 0..(Len(o.rows) - 1), j \in 0..(Len(o.rows) - 1)}
+  \cup {Inst("ListMutRef", r, [i |-> i, refi |-> j]) : i \in 0..(Len(o.rows) - 1), j \in 0..(Len(o.rows) - 1)}
+Repls == {<<>>, sAMBIG, sGAP, sMAJ, <<90>>, <<122, 122>>}
+InstC15(h) ==
+  LET r == 1  o == h[1]  W == Width(o)
+      big == W > 8
+      refs == IF big THEN {<<>>, <<114, 49>>, <<114, 50>>, nZ} ELSE {<<>>, <<114, 50>>}
+      starts == IF big THEN {-1, 0, 1, W - 1, W, W + 1} ELSE {-1, 0, 1, W, W + 1}
+      lens == IF big THEN {0, 1, 2, W, W + 2} ELSE {0, 1, W + 2}
+      repls == IF big THEN Repls ELSE {<<>>, sMAJ, <<45>>} IN
+  {Inst("Mask", r, [ref |-> rf, start |-> s, len |-> n, repl |-> rp, nogap |-> ng, noref |-> nr]) :
+      rf \in refs, s \in starts, n \in lens, rp \in repls, ng \in Bools, nr \in Bools}
+  \cup {Inst("MaskOccurences", r, [ref |-> rf, max |-> m, repl |-> rp]) : rf \in refs, m \in 0..(Len(o.rows) + 1), rp \in repls}
+  \cup {Inst("MaskUnique", r, [ref |-> rf, repl |-> rp]) : rf \in refs, rp \in repls}
+\* C19: a copy-producing or read-only operation, then a mutation of any live object (original or copy)
+Queries == {"fasta", "phylip", "nexus", "clustal", "stockholm", "paml", "dist", "protdist", "sw", "swatg", "orf", "string"}
+InstC19(h) ==
+  IF Len(hist) = 2 THEN
+    UNION {
+      {Inst("CloneSeqBag", r, NoArg), Inst("Unalign", r, NoArg)}
+      \cup (IF IsAlign(h[r]) THEN
+              {Inst("Clone", r, NoArg), Inst("Transpose", r, NoArg)}
+              \cup {Inst("SubAlign", r, [start |-> s, len |-> n]) : s \in 0..L(h[r]), n \in 0..L(h[r])}
+              \cup {Inst("SelectSites", r, [sites |-> ss]) : ss \in {[i \in 1..L(h[r]) |-> i - 1], <<0>>, <<L(h[r]) - 1, 0>>, <<>>}}
+              \cup {Inst("Split", r, [plen |-> L(h[r]), ranges |-> <<Rg(0, 0, 0, 1), Rg(1, 1, L(h[r]) - 1, 1)>>])}
+              \cup {Inst("Query", r, [q |-> q]) : q \in Queries}
+              \cup {Inst("CharStats", r, NoArg), Inst("CountDifferences", r, NoArg), Inst("Entropy", r, [site |-> 0, rmgaps |-> TRUE]),
+                    Inst("InversePositions", r, [sites |-> <<0>>]), Inst("RefSites", r, [name |-> nA, sites |-> <<0>>])}
+            ELSE {})
+      : r \in 1..Len(h)}
+  ELSE
+    UNION {
+      {Inst("SetSequenceChar", r, [i |-> 0, j |-> 0, c |-> 103]), Inst("ToLower", r, NoArg), Inst("Rename", r, [map |-> <<[f |-> nA, t |-> nZ]>>]),
+       Inst("Replace", r, [old |-> <<65>>, new |-> <<71>>])}
+      \cup (IF IsAlign(h[r]) THEN {Inst("ReplaceChar", r, [name |-> nA, site |-> L(h[r]) - 1, c |-> 99]), Inst("ReverseComplement", r, NoArg),
+                                   Inst("Mask", r, [ref |-> <<>>, start |-> 0, len |-> 9, repl |-> <<90>>, nogap |-> FALSE, noref |-> FALSE]),
+                                   Inst("DiffWithFirst", r, NoArg), Inst("TrimSequences", r, [n |-> 1, fromstart |-> TRUE])}
+            ELSE {})
+      : r \in 1..Len(h)}
+Rates == {<<-1, 4>>, <<0, 4>>, <<1, 4>>, <<2, 4>>, <<4, 4>>, <<5, 4>>}
+InstC10(h) ==
+  LET r == 1 IN
+  {Inst("ShuffleSequences", r, [seed |-> 5])}
+  \cup {Inst("ShuffleSites", r, [rp |-> a[1], rq |-> 4, gp |-> b[1], gq |-> 4, first |-> f, seed |-> 5]) : a \in Rates \ {<<-1, 4>>, <<5, 4>>}, b \in Rates \ {<<-1, 4>>, <<5, 4>>}, f \in Bools}
+  \cup {Inst("Swap", r, [rp |-> a[1], rq |-> 4, posp |-> b[1], posq |-> 4, seed |-> 5]) : a \in Rates, b \in Rates}
+  \cup {Inst("SimulateRogue", r, [pp |-> a[1], pq |-> 4, lp |-> b[1], lq |-> 4, seed |-> 5]) : a \in Rates, b \in Rates}
+  \cup {Inst("BuildBootstrap", r, [fp |-> a[1], fq |-> 4, seed |-> 5]) : a \in Rates}
+  \cup {Inst("Sample", r, [nb |-> k, seed |-> 5]) : k \in 0..(Len(h[r].rows) + 1)}
+  \cup {Inst("RandSubAlign", r, [len |-> k, consecutive |-> c, seed |-> 5]) : k \in (-1)..(L(h[r]) + 1), c \in Bools}
+  \cup {Inst("Mutate", r, [rp |-> a[1], rq |-> 4, seed |-> 5]) : a \in Rates}
+  \cup {Inst("AddGaps", r, [pp |-> a[1], pq |-> 4, lp |-> b[1], lq |-> 4, seed |-> 5]) : a \in Rates, b \in Rates}
+  \cup {Inst("Recombine", r, [pp |-> a[1], pq |-> 8, lp |-> b[1], lq |-> 4, swap |-> sw, seed |-> 5]) : a \in Rates, b \in Rates, sw \in Bools}
 Instances(h) ==
   CASE Profile = "C06" -> InstC06(h)
+    [] Profile = "C05" -> InstC05(h)
+    [] Profile = "C12" -> InstC12(h)
+    [] Profile = "C13" -> InstC13(h)
+    [] Profile = "C14" -> InstC14(h)
+    [] Profile = "C15" -> InstC15(h)
+    [] Profile = "C19" -> InstC19(h)
+    [] Profile = "C10" -> InstC10(h)
     [] Profile = "C01" -> InstC01(h)
     [] Profile = "C04" -> InstC04(h)
     [] OTHER -> {}
